@@ -24,29 +24,21 @@ theorem parse_kwNone (ks : List Name) (rest : List SigItem) :
   | nil => rfl
   | cons n ns ih => simp [parseItems, ih]
 
-theorem parse_tail (vk : Option Name) (a : Bool) :
-    parseItems (match vk with | some k => [SigItem.dstar k] | none => []) a = ⟨[], none, [], vk⟩ := by
-  cases vk <;> cases a <;> rfl
+theorem parse_kwNone_nil (ks : List Name) :
+    parseItems (ks.map .kwNone) true = ⟨[], none, ks, none⟩ := by
+  have := parse_kwNone ks []
+  simpa [parseItems] using this
+
+theorem parse_kwNone_dstar (ks : List Name) (k : Name) :
+    parseItems (ks.map .kwNone ++ [.dstar k]) true = ⟨[], none, ks, some k⟩ := by
+  rw [parse_kwNone]; simp [parseItems]
 
 theorem parse_signatureItems (s : ArgSpec) :
     parseItems (signatureItems s) false = ⟨s.posonly ++ s.pos, s.varargs, s.kwonly, s.varkw⟩ := by
   unfold signatureItems fullArgs
   rw [List.append_assoc, List.append_assoc, parse_plain]
-  cases hv : s.varargs with
-  | some v =>
-    simp only [List.cons_append, List.nil_append, parseItems]
-    rw [parse_kwNone, parse_tail]
-    simp
-  | none =>
-    cases hk : s.kwonly with
-    | nil =>
-      simp only [List.isEmpty_nil, if_true, List.map_nil, List.nil_append]
-      rw [parse_tail]
-      simp
-    | cons k ks =>
-      simp only [List.isEmpty_cons, Bool.false_eq_true, if_false, List.cons_append, List.nil_append, parseItems]
-      rw [← List.map_cons, parse_kwNone, parse_tail]
-      simp
+  cases hvk : s.varkw <;> cases hv : s.varargs <;> cases hk : s.kwonly <;>
+    simp [parseItems, parse_kwNone_nil, parse_kwNone_dstar]
 
 /-- the wrapper declares the same names in the same order; positional-only parameters have become
 positional-or-keyword; defaults, kw-defaults, annotations, doc are the original's objects -/
@@ -71,12 +63,17 @@ theorem evalShort_kwEq (env : Env) (ks : List Name) (rest : List ShortItem) :
   | nil => rfl
   | cons n ns ih => simp [evalShort, ih]
 
+theorem evalShort_kwEq_nil (env : Env) (ks : List Name) :
+    evalShort env (ks.map .kwEq) = ⟨[], ks.map (fun k => (k, look env.args k))⟩ := by
+  have := evalShort_kwEq env ks []
+  simpa [evalShort] using this
+
 theorem forward_eq (s : ArgSpec) (env : Env) :
     forward s env = ⟨(s.posonly ++ s.pos).map (look env.args) ++ (if s.varargs.isSome then env.varargs else []),
                      s.kwonly.map (fun k => (k, look env.args k)) ++ (if s.varkw.isSome then env.kw else [])⟩ := by
   unfold forward shortItems fullArgs
   rw [List.append_assoc, List.append_assoc, evalShort_plain]
-  cases s.varargs <;> cases s.varkw <;> simp [evalShort, evalShort_kwEq]
+  cases s.varargs <;> cases s.varkw <;> simp [evalShort, evalShort_kwEq, evalShort_kwEq_nil]
 
 /-! ### association lists -/
 
@@ -153,9 +150,12 @@ theorem flags_length (s : ArgSpec) : (flags s).length = s.posonly.length + s.pos
   simp [flags]
 
 theorem params_names (s : ArgSpec) : (params s).map (·.name) = s.posonly ++ s.pos := by
+  have h := map_zipWith_left (fun (nk : Name × Bool) (d : Option Val) => (⟨nk.1, nk.2, d⟩ : Param))
+    (fun p => p.name) (fun nk => nk.1) (fun _ _ => rfl) (flags s)
+    (defaultsFor (s.posonly.length + s.pos.length) s.defaults)
+    (by rw [flags_length]; exact defaultsFor_length _ _)
   unfold params
-  rw [map_zipWith_left _ _ (fun nk => nk.1) (fun _ _ => rfl) _ _
-    (by rw [flags_length]; exact defaultsFor_length _ _)]
+  rw [h]
   simp [flags, List.map_map, Function.comp_def]
 
 theorem params_length (s : ArgSpec) : (params s).length = (s.posonly ++ s.pos).length := by
@@ -175,11 +175,11 @@ theorem params_wrapper (s : ArgSpec) (wid : Nat) : params (wrapperSpec s wid) = 
   simp only [params, flags, List.map_nil, List.nil_append, List.length_nil, Nat.zero_add, List.length_append,
     List.map_append]
   rw [List.map_zipWith]
-  rw [← List.map_append, ← List.map_append]
   generalize s.posonly.length + s.pos.length = n
   generalize defaultsFor n s.defaults = ds
   have : ∀ (l1 l2 : List Name) (ds : List (Option Val)),
-      List.zipWith (fun (nk : Name × Bool) d => (⟨nk.1, nk.2, d⟩ : Param)) ((l1 ++ l2).map (fun n => (n, true))) ds
+      List.zipWith (fun (nk : Name × Bool) d => (⟨nk.1, nk.2, d⟩ : Param))
+          (l1.map (fun n => (n, true)) ++ l2.map (fun n => (n, true))) ds
         = List.zipWith (fun (nk : Name × Bool) d => setKwable ⟨nk.1, nk.2, d⟩)
             (l1.map (fun n => (n, false)) ++ l2.map (fun n => (n, true))) ds := by
     intro l1
@@ -192,12 +192,16 @@ theorem params_wrapper (s : ArgSpec) (wid : Nat) : params (wrapperSpec s wid) = 
         intro ds
         cases ds with
         | nil => simp
-        | cons d ds => simp [setKwable]; simpa using ih2 ds
+        | cons d ds =>
+          simp only [List.map_nil, List.nil_append, List.map_cons, List.zipWith_cons_cons] at ih2 ⊢
+          rw [ih2 ds]; rfl
     | cons a l1 ih =>
       intro l2 ds
       cases ds with
       | nil => simp
-      | cons d ds => simp [setKwable]; simpa using ih l2 ds
+      | cons d ds =>
+        simp only [List.map_cons, List.cons_append, List.zipWith_cons_cons]
+        rw [ih l2 ds]; rfl
   exact this _ _ _
 
 /-! ### binding -/
@@ -265,12 +269,14 @@ theorem bindPos_positional (kw : Kw) (extra : List Val) : ∀ (ps : List Param) 
   | p :: ps, [], h, _ => by simp at h
   | p :: ps, (k, v) :: a, h, hk => by
     simp only [List.map_cons, List.cons.injEq] at h
-    have ih := bindPos_positional kw extra ps a h.2 (fun q hq => hk q (List.mem_cons_of_mem _ hq))
+    obtain ⟨h1, h2⟩ := h
+    subst h1
+    have ih := bindPos_positional kw extra ps a h2 (fun q hq => hk q (List.mem_cons_of_mem _ hq))
     have hp := hk p (by simp)
     simp only [List.map_cons, List.cons_append, bindPos, ih]
     cases hkw : p.kwable
-    · simp [← h.1]
-    · simp [hp hkw, ← h.1]
+    · simp
+    · simp [hp hkw]
 
 theorem bindKwonly_self (kw kd : Kw) : ∀ (b : Kw), (∀ kv ∈ b, lookup kw kv.1 = some kv.2) →
     bindKwonly kw kd (b.map (·.1)) = .ok b
@@ -289,7 +295,7 @@ structure EnvShape (s : ArgSpec) (env : Env) : Prop where
   kwfree : ∀ kv ∈ env.kw, kv.1 ∉ s.pos ∧ kv.1 ∉ s.kwonly
 
 theorem bind_ok_shape {s : ArgSpec} {ca : CallArgs} {env : Env} (h : bind s ca = .ok env) : EnvShape s env := by
-  unfold bind at h
+  unfold Model.Wrappers.bind at h
   simp only at h
   split at h
   · cases h
@@ -399,7 +405,7 @@ theorem bind_forward_shape {s : ArgSpec} {env : Env} (wf : WF s) (h : EnvShape s
   have hbk : bindKwonly (b ++ kw) s.kwdefaults s.kwonly = .ok b := by
     rw [← hb]
     exact bindKwonly_self _ _ b (lookup_mem_nodup kw hndb)
-  unfold bind
+  unfold Model.Wrappers.bind
   simp only [hextra, hleft, hbp, hbk]
   have c1 : (s.varargs.isNone && !va.isEmpty) = false := by
     cases hv : s.varargs <;> simp [hva, hv]
@@ -429,7 +435,7 @@ theorem bind_wrapper_eq (s : ArgSpec) (wid : Nat) (ca : CallArgs) (h : NoPosOnly
     intro kv hkv
     have := h kv hkv
     simp [this]
-  unfold bind
+  unfold Model.Wrappers.bind
   simp only [hbp, hlen, hleft]
   rw [wrapperSpec_eq]
 
